@@ -263,3 +263,13 @@ PROPS['C06']['level_text'] += SOLVE_TXT + " The only exception the suffix lets e
 
 PROPS['C05']['undecided_clauses'] = ["optimality w.r.t. the TRUE conditioned rewards in cyclic games (C02's accuracy clause)"]
 PROPS['C05']['level_text'] += " The inclusion 'final strategy within reachability strategy at every Player 1 state' is a discharged postcondition of the solve suffix (through the proved lemmas L_ArgEqR_from, L_FA_from, L_FL_from), for every game without exception."
+
+# ---- C01/C04 hold for EVERY solve of a description, also one that follows an earlier (pruned) solve of the same lists: that rests
+# on the conditioning methods leaving every pre-existing list object alone (their frames), so these functions join the two cones
+FRAME_CONE = ['tad.Node.prune_paths', 'tad.PlayerOne.prune_paths', 'tad.ProbabilisticNode.prune_paths', 'tad.PlayerOne.prune_paths_reachability',
+              'tad.Solver.prune_paths', 'tad.Solver.prune_reachability', 'tad.Solver.prune_states', 'tad.Solver.prune_stochastich_game']
+for _p in ('C01', 'C04'):
+    PROPS[_p]['functions'] = PROPS[_p]['functions'] + [q for q in FRAME_CONE if q not in PROPS[_p]['functions']]
+    PROPS[_p]['lemmas'] = PROPS[_p]['lemmas'] + [l for l in COND_LEMMAS if l not in PROPS[_p]['lemmas']]
+    PROPS[_p]['level_text'] += (" The statement is about every solve, including one that follows a pruned solve of the same lists: the frames of the"
+                                " conditioning methods (no list object that existed before is modified) are discharged in this cone too.")
